@@ -117,20 +117,22 @@ def run_tlc(spec, cfg, name=None, workers=16, env=None, timeout=3600, coverage=F
 
 def parse_prints(out):
     """Collect values printed by PrintT(<<"TAG", ...>>): returns list of strings (the raw TLA+ tuple text).
-    Multi-line values are joined by bracket matching."""
+    Multi-line values are joined by bracket matching (depth tracked incrementally: linear in the output size)."""
     res = []
     lines = out.splitlines()
     i = 0
     while i < len(lines):
         ln = lines[i]
         if ln.startswith('<<"') or ln.startswith('<< "'):
-            buf = '<<"' + ln[4:] if ln.startswith('<< "') else ln
-            depth = _depth(ln)
+            first = '<<"' + ln[4:] if ln.startswith('<< "') else ln
+            parts = [first]
+            depth = _depth(first)
             while depth > 0 and i + 1 < len(lines):
                 i += 1
-                buf += " " + lines[i].strip()
-                depth = _depth(buf)
-            res.append(buf)
+                nxt = lines[i].strip()
+                parts.append(nxt)
+                depth += _depth(nxt)
+            res.append(" ".join(parts))
         i += 1
     return res
 
